@@ -2,6 +2,8 @@
 
 package sod
 
+import "bytes"
+
 // C18 kernel — snake-case directory names: no upper-case letter is left
 // and, underscores aside, the name is the lower-cased type name.
 func VH_C18_snake() {
@@ -28,6 +30,44 @@ func VH_C18_snake() {
 		}
 	}
 	vAssert("C18.snake.all_consumed", j == len(s))
+	// directory names must not change between releases: same result as
+	// the algorithm of the pinned release (kept below as the reference)
+	vAssert("C18.snake.same_as_pinned_release", out == vhSnakePinned(s))
+}
+
+// vhSnakePinned is the directory naming rule of the pinned release
+// (commit e481c06, utils.go camelToSnake), kept verbatim as the oracle.
+func vhSnakePinned(camel string) string {
+	var snake bytes.Buffer
+	var prevLower bool
+	var cur, next rune
+
+	for i := range camel {
+		var nextLower bool
+		cur = rune(camel[i])
+		isDigit := ('0' <= cur && cur <= '9')
+		if i < len(camel)-1 {
+			next = rune(camel[i+1])
+			if 'a' <= next && next <= 'z' {
+				nextLower = true
+			}
+		}
+		if ('A' <= cur && cur <= 'Z') || isDigit {
+			if snake.Len() > 0 && (nextLower || prevLower) {
+				snake.WriteRune('_')
+			}
+			if isDigit {
+				snake.WriteRune(cur)
+			} else {
+				snake.WriteRune(cur - 'A' + 'a')
+			}
+			prevLower = false
+		} else {
+			snake.WriteRune(cur)
+			prevLower = true
+		}
+	}
+	return snake.String()
 }
 
 // VH_C18_layout: after any history and under every configuration the
